@@ -369,7 +369,8 @@ func checkRegularOnly(r *Run, p *packages.Package, decls map[string]*ast.FuncDec
 		r.Undecide("C20-R3: extraction loop not found")
 		return
 	}
-	list := loop.Body.List
+	// checks factored out into an error-returning helper are looked at where the helper is called
+	list := spliceGatedHelpers(p, loop.Body.List, 2)
 	idxExtract, _ := firstStmtCalling(p, list, func(fn *types.Func, c *ast.CallExpr) bool {
 		return fn != nil && strings.HasPrefix(fn.Name(), "unpackTarFile")
 	})
@@ -427,8 +428,54 @@ func checkRegularOnly(r *Run, p *packages.Package, decls map[string]*ast.FuncDec
 			typeIdx = i
 		}
 	}
-	dupIdx := findReject(func(c string) bool { return strings.Contains(c, "seen[") })
-	sizeIdx := findReject(func(c string) bool { return strings.Contains(c, ".Size<0") })
+	rejects := func(ifs *ast.IfStmt) bool {
+		for _, b := range ifs.Body.List {
+			if rs, ok := b.(*ast.ReturnStmt); ok && len(rs.Results) >= 1 && !isNilIdent(info, rs.Results[len(rs.Results)-1]) {
+				return true
+			}
+		}
+		return false
+	}
+	// duplicate: a comma-ok lookup in a string-keyed map (or a bool map read) whose hit rejects the entry
+	// negative size: a comparison `<header>.Size < 0` on a tar header
+	dupIdx, sizeIdx := -1, -1
+	for i, st := range list {
+		ifs, ok := st.(*ast.IfStmt)
+		if !ok || !rejects(ifs) {
+			continue
+		}
+		isMapLookup := func(e ast.Expr) bool {
+			ix, ok := ast.Unparen(e).(*ast.IndexExpr)
+			if !ok {
+				return false
+			}
+			m, ok := info.TypeOf(ix.X).Underlying().(*types.Map)
+			if !ok {
+				return false
+			}
+			b, ok := m.Key().Underlying().(*types.Basic)
+			return ok && b.Kind() == types.String
+		}
+		if as, ok := ifs.Init.(*ast.AssignStmt); ok && len(as.Rhs) == 1 && isMapLookup(as.Rhs[0]) && dupIdx < 0 {
+			dupIdx = i
+		}
+		if isMapLookup(ifs.Cond) && dupIdx < 0 {
+			dupIdx = i
+		}
+		ast.Inspect(ifs.Cond, func(x ast.Node) bool {
+			be, ok := x.(*ast.BinaryExpr)
+			if !ok || be.Op != token.LSS {
+				return true
+			}
+			if sel, ok := ast.Unparen(be.X).(*ast.SelectorExpr); ok && sel.Sel.Name == "Size" && namedName(info.TypeOf(sel.X)) == "Header" {
+				if tv, has := info.Types[be.Y]; has && tv.Value != nil && tv.Value.String() == "0" && sizeIdx < 0 {
+					sizeIdx = i
+				}
+			}
+			return true
+		})
+	}
+	_ = findReject
 	sanIdx := -1
 	for _, g := range gatesOf(p, list) {
 		if g.Callee == "sanitizeArchivePath" && g.Returns {
@@ -801,52 +848,50 @@ func checkEnvelope(r *Run, p *packages.Package, cg *CallGraph, decls map[string]
 	} else {
 		r.Fail("C20-R5-envelope", "readNextFrame:index-advances", rn.Pos(), "the frame index never advances: every frame authenticates against index 0 and can be replayed or reordered")
 	}
-	// final = true only after the empty-plaintext check and the EOF gate
-	var finalIf *ast.IfStmt
+	// final = true only after the empty-plaintext check and the EOF gate: both must be leaving ifs that dominate the
+	// assignment (in whichever spelling: nested in the final-frame branch, or after an early return for data frames)
+	var finalAssign *ast.AssignStmt
 	ast.Inspect(rn.Body, func(n ast.Node) bool {
-		if ifs, ok := n.(*ast.IfStmt); ok && finalIf == nil {
-			assigns := false
-			for _, st := range ifs.Body.List {
-				if as, ok := st.(*ast.AssignStmt); ok && strings.HasSuffix(exprString(r.Fset, as.Lhs[0]), ".final") {
-					assigns = true
+		if as, ok := n.(*ast.AssignStmt); ok && finalAssign == nil && len(as.Lhs) == 1 {
+			if sel, ok := ast.Unparen(as.Lhs[0]).(*ast.SelectorExpr); ok && sel.Sel.Name == "final" {
+				if tv, has := p.TypesInfo.Types[as.Rhs[0]]; has && tv.Value != nil && tv.Value.String() == "true" {
+					finalAssign = as
 				}
-			}
-			if assigns {
-				finalIf = ifs
 			}
 		}
 		return true
 	})
-	if finalIf == nil {
+	if finalAssign == nil {
 		r.Fail("C20-R5-envelope", "readNextFrame:final-gates", rn.Pos(), "no branch sets the reader's final flag")
 	} else {
-		idxFinal, idxEmpty, idxEOF := -1, -1, -1
-		for i, st := range finalIf.Body.List {
-			if as, ok := st.(*ast.AssignStmt); ok && strings.HasSuffix(exprString(r.Fset, as.Lhs[0]), ".final") {
-				idxFinal = i
-			}
-			if ifs, ok := st.(*ast.IfStmt); ok {
-				c := strings.ReplaceAll(exprString(r.Fset, ifs.Cond), " ", "")
-				ret := false
-				for _, b := range ifs.Body.List {
-					if _, ok := b.(*ast.ReturnStmt); ok {
-						ret = true
+		hasEmpty, hasEOF := false, false
+		for _, ifs := range dominatingLeavingIfs(rn.Body, finalAssign) {
+			// `if len(<bytes>) != 0 { return … }`
+			if be, ok := ast.Unparen(ifs.Cond).(*ast.BinaryExpr); ok && (be.Op == token.NEQ || be.Op == token.GTR) {
+				if call, ok := ast.Unparen(be.X).(*ast.CallExpr); ok && len(call.Args) == 1 {
+					if id, ok := call.Fun.(*ast.Ident); ok && id.Name == "len" {
+						if sl, ok := p.TypesInfo.TypeOf(call.Args[0]).Underlying().(*types.Slice); ok {
+							if b, ok := sl.Elem().Underlying().(*types.Basic); ok && b.Kind() == types.Byte {
+								if tv, has := p.TypesInfo.Types[be.Y]; has && tv.Value != nil && tv.Value.String() == "0" {
+									hasEmpty = true
+								}
+							}
+						}
 					}
 				}
-				if strings.Contains(c, "len(plaintext)!=0") && ret {
-					idxEmpty = i
-				}
+			}
+			// `if err := requireEncryptedArchiveEOF(…); err != nil { return err }`
+			if ifs.Init != nil && stmtHasCall(ifs.Init, func(c *ast.CallExpr) bool {
+				fn := calleeOf(p.TypesInfo, c)
+				return fn != nil && fn.Name() == "requireEncryptedArchiveEOF"
+			}) {
+				hasEOF = true
 			}
 		}
-		for _, g := range gatesOf(p, finalIf.Body.List) {
-			if g.Callee == "requireEncryptedArchiveEOF" && g.Returns {
-				idxEOF = g.Index
-			}
-		}
-		if idxEmpty >= 0 && idxEOF >= 0 && idxFinal > idxEmpty && idxFinal > idxEOF {
-			r.Pass("C20-R5-envelope", "readNextFrame:final-gates", finalIf.Pos(), "end of stream is accepted only after an empty final frame and a verified EOF")
+		if hasEmpty && hasEOF {
+			r.Pass("C20-R5-envelope", "readNextFrame:final-gates", finalAssign.Pos(), "end of stream is accepted only after an empty final frame and a verified EOF")
 		} else {
-			r.Fail("C20-R5-envelope", "readNextFrame:final-gates", finalIf.Pos(), "the final flag is set without (empty-final-frame check at %d, EOF gate at %d, flag at %d): appended or truncated data is accepted", idxEmpty, idxEOF, idxFinal)
+			r.Fail("C20-R5-envelope", "readNextFrame:final-gates", finalAssign.Pos(), "the final flag is set without both gates in front of it (empty final frame: %v, EOF gate: %v): appended or truncated data is accepted", hasEmpty, hasEOF)
 		}
 	}
 	// Read returns EOF only when final
